@@ -168,3 +168,20 @@ Theorem C07_checker_terminates_within_a_computable_fuel_partial : forall intern,
   forall P fuel, (check_fuel_needed P <= fuel)%nat -> check_program_t intern fuel P <> CNoFuel.
 Proof. exact adequacy_program. Qed.
 Print Assumptions C07_checker_terminates_within_a_computable_fuel_partial.
+
+(* the parser ignores token locations (Front/ParseUnloc.v), and is a left inverse of printing for
+   programs of function definitions: the printed TEXT of a well-formed program is scanned and parsed
+   back to the program *)
+From GV Require Import Front.ParseUnloc.
+
+Theorem C07_parser_ignores_token_locations : forall fuel ts,
+  parse_program_text fuel (unloc ts) = parse_program_text fuel ts.
+Proof. exact parse_program_text_unloc. Qed.
+Print Assumptions C07_parser_ignores_token_locations.
+
+Theorem C07_printed_program_text_is_parsed_back_partial : forall P,
+  wf_program P -> Forall tok_printable (map kind (show_program P)) ->
+  exists ts' f0, scan_text (program_text P) = Ok (STokens ts') /\
+                 forall fuel, (f0 <= fuel)%nat -> parse_program_text fuel ts' = POk P (PState [] true).
+Proof. exact scan_parse_show_program. Qed.
+Print Assumptions C07_printed_program_text_is_parsed_back_partial.
